@@ -48,6 +48,12 @@ def run(ctx):
             for rep in range(2 if quick else 5):
                 s2 = dict(many); s2["extra"] = many["extra"] + rnd.choice([[], ["--ownership"], ["--no-perms"], ["--no-timestamps"]])
                 jobs.append((s2, drv, w, None, rep))
+    # --fsync together with every subset of the other finalisation options: the flush must not depend on them
+    for drv in ("parfile", "parblock"):
+        for bits in range(8):
+            flags = [f for k, f in enumerate(["--no-perms", "--no-timestamps", "--ownership"]) if bits >> k & 1]
+            s2 = dict(scs[0]); s2["extra"] = scs[0]["extra"] + flags; s2["id"] = "multi-flags%d" % bits
+            jobs.append((s2, drv, 3, None, 0))
     # without --fsync nothing is required (the monitor must stay silent): control runs
     ctrl = dict(scs[0]); ctrl["extra"] = ["--block-size", "1000"]; ctrl["id"] = "multi-nofsync"
     for drv in ("parfile", "parblock"):
